@@ -68,6 +68,11 @@ fn serial_of(y: i64, m: i64, d: i64) -> i64 {
     days_from_civil(y, m, d) - days_from_civil(1899, 12, 30)
 }
 
+/// Shape used in signatures: spaces dropped, foreign currency folded into C.
+pub fn sig_shape(s: &str, li: &LocInfo) -> String {
+    shape(s, li).chars().filter(|c| *c != '_').map(|c| if c == 'c' { 'C' } else { c }).collect()
+}
+
 /// Coarse shape of an input: S sign, C local currency, c other currency, N mantissa (digits, separators),
 /// X exponent, P percent, _ space, / : literal, ? anything else.
 pub fn shape(s: &str, li: &LocInfo) -> String {
@@ -191,8 +196,11 @@ fn parse_unum(core: &[char], li: &LocInfo) -> Result<Unum, &'static str> {
             trailing = true;
             groups.pop();
         }
+        if groups[0] == 0 {
+            return Err("leading-group-separator");
+        }
         if groups.iter().any(|g| *g == 0) {
-            return Err("misplaced-group-separator");
+            return Err("doubled-group-separator");
         }
         let full = groups[0] <= 3 && groups[1..].iter().all(|g| *g == 3);
         let partial = groups[1..].iter().all(|g| *g % 3 == 0);
@@ -214,7 +222,7 @@ fn parse_unum(core: &[char], li: &LocInfo) -> Result<Unum, &'static str> {
         if int.is_empty() {
             lenient = lenient.or(Some("bare-leading-decimal-separator"));
         } else {
-            return Err("misplaced-group-separator");
+            return Err("leading-group-separator");
         }
     }
     if has_dec && frac.is_empty() {
@@ -383,6 +391,10 @@ fn decorated(t: &[char], li: &LocInfo) -> Verdict {
         Err(why) => return Verdict::MustNot { why },
     };
     if signs >= 2 {
+        let ps: Vec<usize> = prefix.iter().enumerate().filter(|(_, c)| is_sign(**c)).map(|(i, _)| i).collect();
+        if ps.len() == 2 && ps[1] - ps[0] == 2 && is_currency(prefix[ps[0] + 1]) && signs == 2 {
+            return Verdict::MustNot { why: "sign-before-and-after-currency-symbol" };
+        }
         return Verdict::MustNot { why: "two-signs" };
     }
     if syms >= 2 {
@@ -485,7 +497,35 @@ fn classify_nospace(t: &[char], li: &LocInfo, date_sep: char) -> Verdict {
         }
         return date_verdict(&parts, &seps, li, date_sep);
     }
-    decorated(t, li)
+    let v = decorated(t, li);
+    if matches!(v, Verdict::MustNot { .. }) && signed_date_shape(t) {
+        return Verdict::MustNot { why: "sign-inside-date" };
+    }
+    v
+}
+
+/// digits sep [+-]digits (sep [+-]digits)? with at least one sign after a separator
+fn signed_date_shape(t: &[char]) -> bool {
+    let mut parts = 1;
+    let mut cur = 0;
+    let mut signs = 0;
+    let mut after_sep = false;
+    for c in t {
+        if c.is_ascii_digit() {
+            cur += 1;
+            after_sep = false;
+        } else if after_sep && is_sign(*c) {
+            signs += 1;
+            after_sep = false;
+        } else if is_datesep(*c) && cur > 0 {
+            parts += 1;
+            cur = 0;
+            after_sep = true;
+        } else {
+            return false;
+        }
+    }
+    cur > 0 && (2..=3).contains(&parts) && signs > 0
 }
 
 /// The separator of the locale's own short date format.
@@ -643,6 +683,10 @@ mod tests {
         assert!(matches!(r.classify("2/29/2015"), Verdict::MustNot { .. }));
         assert!(matches!(r.classify("2/29/2016"), Verdict::MustDate { .. }));
         assert!(matches!(r.classify("13/1/2015"), Verdict::Unspec { .. }));
+        assert_eq!(r.classify("1/1/-0"), Verdict::MustNot { why: "sign-inside-date" });
+        assert_eq!(r.classify("1-1-+0"), Verdict::MustNot { why: "sign-inside-date" });
+        assert_eq!(r.classify("1.1.+0"), Verdict::MustNot { why: "sign-inside-date" });
+        assert!(matches!(r.classify("1.5e+0"), Verdict::Must { .. }));
         let d = de();
         assert!(matches!(d.classify("15.10.15"), Verdict::MustDate { .. }));
         assert!(matches!(d.classify("1.5"), Verdict::Unspec { .. }));
